@@ -26,13 +26,13 @@ func (r *ruler) dumpWorld(in *absint.Interp) (vmCell, ctx, mainc *absint.Cell) {
 		f := append([]absint.Val(nil), st.F...)
 		for i := 0; i < m.CtxT.NumFields(); i++ {
 			fl := m.CtxT.Field(i)
-			switch fl.Name() {
+			switch m.CtxRoles[i] {
 			case "parent":
 				f[i] = parent
 			case "m":
 				f[i] = absint.NewVar(tag+".m", memT)
 			default:
-				f[i] = absint.NewVar(tag+"."+fl.Name(), fl.Type())
+				f[i] = absint.NewVar(tag+"."+m.CtxRoles[i], fl.Type())
 			}
 		}
 		c := in.NewCell(&absint.Struct{T: ctxNamed, F: f}, tag)
